@@ -91,7 +91,15 @@ class Routine(Schedule, CommentableMixin):
         is_eq = super().__eq__(other)
         is_eq = is_eq and self.name == other.name
         is_eq = is_eq and self.is_program == other.is_program
-        is_eq = is_eq and self.return_symbol == other.return_symbol
+        if is_eq:
+            # Symbols have no __eq__ and a copy of this Routine has its own
+            # Symbol instances so the return symbols are compared by name.
+            self_ret = self.return_symbol
+            other_ret = other.return_symbol
+            if self_ret is None or other_ret is None:
+                is_eq = self_ret is other_ret
+            else:
+                is_eq = self_ret.name.lower() == other_ret.name.lower()
 
         return is_eq
 
